@@ -2,7 +2,7 @@
 
 DUT      the real luna.gateware.usb.usb3.link.receiver.HeaderPacketReceiver (with its RawHeaderPacketReceiver and
          LinkCommandGenerator inside), `enable` held high for the whole session ("while the link stays in U0").  The DUT
-         sits in a ResetInserter only so that one elaboration (2 s) serves 6 sessions; each starts from power-on state.
+         sits in a ResetInserter only so that one elaboration (2 s) serves 5 sessions; each starts from power-on state.
 Workload one session = a link-partner model (rv/ref/c37_link.py, `Engine`) that respects credits and
          the retry protocol of USB 3.2 ch. 7.2.4.1: it sends headers only when it holds an LCRD credit and has < 4
          unacknowledged headers, damages some on the wire (single bit in DW0-2 / CRC-16 / link control word / CRC-5 /
@@ -44,8 +44,10 @@ Not judged: recovery_required / bad_packet_received / packet_received strobes, L
 from rv.sim import Bench
 
 PROPERTY = "C37"
-CASES = {"quick": 160, "thorough": 2400}
-RULE = ("case = 6 link sessions (power-on reset between them) of 900-2200 cycles: profile (calm / lossy / bursty / backlog / hostile) x consumer ready "
+CASES = {"quick": 128, "thorough": 2400}
+# generous watchdogs: the box is shared; unloaded the quick tier needs < 60 s on 16 workers
+TIMEOUT = {"quick": 3600, "thorough": 8 * 3600}
+RULE = ("case = 5 link sessions (power-on reset between them) of 900-2200 cycles: profile (calm / lossy / bursty / backlog / hostile) x consumer ready "
         "profile x PHY ready profile x filler profile, 30-150 partner actions (new header good or damaged by one of 10 "
         "operators, wrong-sequence decoy, framing decoy, foreign traffic, retry after LBAD with re-sent headers, directed "
         "same-cycle patterns); non-trivial = >= 1 accepted, >= 1 corrupted and >= 1 ignored header and >= 1 retry; "
@@ -249,6 +251,7 @@ def scenario(eng, rng, res, cfg):
         yield from eng.quiesce(need_empty=True)
         if eng.dead:
             return
+        eng._partner_rx()
         if eng.p_lbads > 0:
             yield from eng.do_retry(0.0, 0.0, react=rng.randint(0, 5))
             continue
@@ -276,7 +279,7 @@ def draw_cfg(rng):
     }
 
 
-SESSIONS = 6
+SESSIONS = 5
 
 
 def run_case(rng, tier, res):
